@@ -32,6 +32,8 @@ GetterSearches(n) ==
   IN { sg(s), sg([s EXCEPT ![Len(s)] = "*"]), sg(SubSeq(s, 1, 4)), sg(SubSeq(s, 1, 3) \o <<"*">>), sg(SubSeq(s, 1, 5) \o <<"*">>),
        sg(SubSeq(s, 1, 6) \o <<"*">>), sg(SubSeq(s, 1, 2)), sg(SubSeq(s, 1, 2) \o <<"*">>), sg(<<s[1]>>),
        sg(SubSeq(s, 1, 3) \o <<"**">>), sg(SubSeq(s, 1, 5) \o <<">">>), sg(SubSeq(s, 1, 4) \o <<"*", ">">>),
+       \* '>' with the leaf searched: the expression unfolds to several types that all have entries in one group
+       sg([s EXCEPT ![Len(s)] = "*", ![Len(s) - 2] = ">"]), sg([s EXCEPT ![Len(s)] = "*", ![Len(s) - 3] = ">"]),
        sg(<<"junk">>), [segs |-> [i \in DOMAIN s |-> <<s[i]>>], query |-> << <<"foo", <<"bar">> >> >>] }
 AttrSets == { <<>>, <<"n">>, <<"n", "k3">>, <<"missing">>, <<"sid", "n">> }
 GetterCalls(n) == {[op |-> "getter", univ |-> n, search |-> s, attrs |-> a, enc |-> e] :
